@@ -2,7 +2,7 @@
 import ast
 
 from ..srcmodel import AnalysisError, site
-from ..astutil import dotted, calls_named
+from ..astutil import dotted, calls_named, is_self_attr
 from ..cfg import build
 from .. import a3common
 from ..selftest import Mutant, Rewrite
@@ -93,8 +93,45 @@ def _defs(fn, name):
     return [d for d in local_defs(fn, name) if isinstance(d, ast.AST)]
 
 
+def r3(tree, rep):
+    """state before notification: within one transition, the outputs that record what the input brought run before the outputs
+    that hand control to application code synchronously (plain Deferreds fired with .callback, the delegate / wormhole object):
+    a callback may legally call straight back into the API, and must find the recorded state (no `assert self._x` can fire)"""
+    from ..automat_x import Program, output_calls
+    prog = Program(tree)
+    n = 0
+    for name in ("Input", "Code", "Boss", "Nameplate", "Mailbox", "Allocator", "Lister", "Key", "Receive", "Send", "Order"):
+        m = prog.machine(name)
+        for r in m.rows.values():
+            if len(r.outputs) < 2:
+                continue
+            rec, notify = [], []
+            for i, o in enumerate(r.outputs):
+                fn = m.outputs[o]
+                assigns = [t.attr for x in ast.walk(fn) if isinstance(x, ast.Assign) for t in x.targets if is_self_attr(t)]
+                fires = [c for c in output_calls(m, o) if isinstance(c.func, ast.Attribute) and c.func.attr in ("callback", "errback")
+                         and not is_self_attr(c.func.value)]
+                if fires:
+                    notify.append(i)
+                elif assigns and not fires:
+                    rec.append((i, assigns))
+            if not notify or not rec:
+                continue
+            # only the attributes that some function reachable from the API asserts / reads matter; keep it simple: every recorder first
+            n += 1
+            late = [(i, a) for (i, a) in rec if i > min(notify)]
+            rep.check("C14.R3", "%s %s.%s records its state (%s) before it fires waiting Deferreds" % (name, r.src, r.inp, [a for _, a in rec]),
+                      not late, r.site, key="C14.R3:%s[%s].%s:record-before-notify" % (name, r.src, r.inp),
+                      what="%s %s.%s outputs %s: waiting Deferreds are fired before %s is recorded; a callback that calls back into the "
+                           "API at once finds the old state (an internal assertion fires on a legal call)" % (
+                               name, r.src, r.inp, r.outputs, [a for _, a in late]))
+    if n == 0:
+        raise AnalysisError("no transition both records state and fires waiting Deferreds")
+
+
 def run(tree, rep, tier):
     r2(tree, rep)
+    r3(tree, rep)
     r1(tree, rep, tier)
 
 
